@@ -90,6 +90,9 @@ pub fn pe_encode_target(enc: u8, target: u64, le: bool, pos: u64, bases: &Bases,
     let base = pe_base(enc, pos, bases, addr_size).ok()?;
     let mask = addr_mask(addr_size);
     let abits = 8 * (addr_size as u32).min(8);
+    if abits == 0 {
+        return None;
+    }
     let raw = target.wrapping_sub(base) & mask;
     // signed view of raw as an abits-bit number
     let sraw: i64 = if abits >= 64 { raw as i64 } else if raw >> (abits - 1) & 1 == 1 { (raw | !mask) as i64 } else { raw as i64 };
@@ -119,6 +122,15 @@ pub fn pe_encode_target(enc: u8, target: u64, le: bool, pos: u64, bases: &Bases,
     }
     let v = if signed { sraw as u64 } else { raw };
     Some(pe_encode_raw(enc, v, le, addr_size))
+}
+
+fn encode_ptr(raw_mode: bool, enc: u8, target: u64, le: bool, pos: u64, bases: &Bases, addr_size: u8) -> Vec<u8> {
+    if !raw_mode {
+        if let Some(b) = pe_encode_target(enc, target, le, pos, bases, addr_size) {
+            return b;
+        }
+    }
+    pe_encode_raw(enc, target, le, addr_size)
 }
 
 /// `z` followed by every permutation of every subset of `LPRS` (65 strings).
@@ -245,7 +257,7 @@ impl Ins {
                 let enc = if env.in_fde { env.fde_enc } else { None };
                 match enc {
                     None => {
-                        a.f_uint(FieldKind::Address, "set_loc", env.addr_size as usize, *target);
+                        a.f_uint(FieldKind::Address, "set_loc", (env.addr_size as usize).min(8), *target);
                         Insn::SetLoc(Ok(*target & addr_mask(env.addr_size)))
                     }
                     Some(e) => {
@@ -523,6 +535,9 @@ pub struct SectionSpec {
     pub aarch64: bool,
     /// bases for pointers in this section (`func` is ignored: it is per FDE)
     pub bases: Bases,
+    /// when true, `pers_target`, `FdeSpec::initial` (under an 'R' encoding) and `lsda_target`
+    /// are emitted as raw format values instead of being solved for the base
+    pub raw_pointers: bool,
     pub items: Vec<Item>,
 }
 
@@ -555,6 +570,7 @@ pub struct CieModel {
 
 #[derive(Clone, Debug, PartialEq, Eq)]
 pub enum CieParseError {
+    UnknownVersion(u8),
     UnknownAugmentation,
     Pe(PeErr),
     UnsupportedRegister(u64),
@@ -684,6 +700,9 @@ pub fn build(spec: &SectionSpec) -> Built {
                 s.push(0);
                 a.f_bytes(FieldKind::Str, "augmentation", &s);
                 let mut parse_error = None;
+                if !matches!(c.version, 1 | 3 | 4) {
+                    parse_error = Some(CieParseError::UnknownVersion(c.version));
+                }
                 let addr_size = if !eh && c.version == 4 {
                     a.f_uint(FieldKind::Size, "address_size", 1, c.v4_addr_size as u64);
                     a.f_uint(FieldKind::Size, "segment_size", 1, c.v4_seg_size as u64);
@@ -756,8 +775,7 @@ pub fn build(spec: &SectionSpec) -> Built {
                                         d.f_uint(FieldKind::Form, "personality_encoding", 1, c.pers_enc as u64);
                                         let pos = (data_pos + d.len()) as u64;
                                         let b = Bases { func: None, ..spec.bases };
-                                        let bytes = pe_encode_target(c.pers_enc, c.pers_target, spec.le, pos, &b, addr_size)
-                                            .unwrap_or_else(|| pe_encode_raw(c.pers_enc, c.pers_target, spec.le, addr_size));
+                                        let bytes = encode_ptr(spec.raw_pointers, c.pers_enc, c.pers_target, spec.le, pos, &b, addr_size);
                                         d.f_bytes(FieldKind::Address, "personality", &bytes);
                                         match m::pe_decode(c.pers_enc, &bytes, spec.le, pos, &b, addr_size) {
                                             Ok((p, _)) => personality = Some((c.pers_enc, Ok(p))),
@@ -859,14 +877,13 @@ pub fn build(spec: &SectionSpec) -> Built {
                 let bases0 = Bases { func: None, ..spec.bases };
                 let (initial, range) = match r_enc {
                     None => {
-                        a.f_uint(FieldKind::Address, "initial_location", addr_size as usize, f.initial);
-                        a.f_uint(FieldKind::Size, "address_range", addr_size as usize, f.range);
+                        a.f_uint(FieldKind::Address, "initial_location", (addr_size as usize).min(8), f.initial);
+                        a.f_uint(FieldKind::Size, "address_range", (addr_size as usize).min(8), f.range);
                         (Ok(f.initial & mask), f.range & mask)
                     }
                     Some(e) => {
                         let pos = a.len() as u64;
-                        let bytes = pe_encode_target(e, f.initial, spec.le, pos, &bases0, addr_size)
-                            .unwrap_or_else(|| pe_encode_raw(e, f.initial, spec.le, addr_size));
+                        let bytes = encode_ptr(spec.raw_pointers, e, f.initial, spec.le, pos, &bases0, addr_size);
                         a.f_bytes(FieldKind::Address, "initial_location", &bytes);
                         let init = m::pe_decode(e, &bytes, spec.le, pos, &bases0, addr_size).map(|(p, _)| p.value());
                         let rb = pe_encode_raw(e, f.range, spec.le, addr_size);
@@ -884,8 +901,7 @@ pub fn build(spec: &SectionSpec) -> Built {
                     // pointer is assembled for pos = after a one-byte length (data < 128 bytes)
                     let pos = a.len() as u64 + 1;
                     let lbytes = match l_enc {
-                        Some(e) => pe_encode_target(e, f.lsda_target, spec.le, pos, &b, addr_size)
-                            .unwrap_or_else(|| pe_encode_raw(e, f.lsda_target, spec.le, addr_size)),
+                        Some(e) => encode_ptr(spec.raw_pointers, e, f.lsda_target, spec.le, pos, &b, addr_size),
                         None => vec![],
                     };
                     let total = lbytes.len() + f.aug_pad;
